@@ -518,7 +518,7 @@ def _pub(r: dict) -> dict:
 IN_INITS = ['good', 'eof-before-init', 'rst-before-init', 'silent', 'garbage', 'unknown-code', 'partial-then-eof',
             'unknown-pierce-ticket', 'good-then-immediate-eof']
 ENDINGS = ['local-1', 'local-2', 'local-3', 'remote-eof', 'remote-rst', 'read-timeout', 'write-timeout',
-           'local-and-remote', 'stop-client']
+           'local-and-remote', 'stop-client', 'disconnect-while-connecting']
 
 
 def run_c10_endings_case(res: dict, rng: random.Random, seed: Any):
@@ -530,12 +530,15 @@ def run_c10_endings_case(res: dict, rng: random.Random, seed: Any):
     specs = []
     for _ in range(n_conns):
         direction = rng.choice(['in', 'in', 'out'])
+        ending_ = rng.choice(ENDINGS)
+        if ending_ == 'disconnect-while-connecting':
+            direction = 'out'
         specs.append({
             'direction': direction,
             'obf': rng.random() < 0.4,
             'typ': rng.choice(['P', 'P', 'D', 'F']),
             'init': rng.choice(IN_INITS) if direction == 'in' else 'good',
-            'ending': rng.choice(ENDINGS),
+            'ending': ending_,
             'gap': rng.choice([0.0, 0.01, 0.5]),
         })
 
@@ -554,6 +557,13 @@ def run_c10_endings_case(res: dict, rng: random.Random, seed: Any):
             bobs.append(bob)
         await settle(0.3)
         results = []
+        slow_ports: set = set()
+
+        def planner(node, host, port, attempt):
+            if node == 'me' and port in slow_ports:
+                return ConnPlan(latency=3.0)
+            return ConnPlan(latency=rng.uniform(0.001, 0.03))
+        w.net.planner = planner
         for k, sp in enumerate(specs):
             bob = bobs[k]
             if sp['gap']:
@@ -561,7 +571,22 @@ def run_c10_endings_case(res: dict, rng: random.Random, seed: Any):
             conn = None
             link = None
             before = set(id(c) for c in cm.conns.values())
-            if sp['direction'] == 'out':
+            if sp['direction'] == 'out' and sp['ending'] == 'disconnect-while-connecting':
+                # the connect takes 3 s; at 1 s the registered CONNECTING connection is disconnected locally
+                # (what Network.disconnect() does to every registered connection), then the connect completes
+                me.client.settings.network.peer.obfuscate = sp['obf']
+                slow_ports.update({bob.port, bob.obf_port})
+                task = w.spawn('me', net.create_peer_connection(bob.name, sp['typ']), name='vf-c10-slow-connect')
+                await asyncio.sleep(1.0)
+                pending = [c for c in net.peer_connections if c.username == bob.name and c.state.name == 'CONNECTING']
+                n_calls = rng.choice([1, 2])
+                for c in pending:
+                    await asyncio.gather(*[me.call(c.disconnect(CloseReason.REQUESTED)) for _ in range(n_calls)])
+                obs['endings_judged'] += 1 if pending else 0
+                await asyncio.gather(task, return_exceptions=True)
+                await settle(3.0)
+                conn = None
+            elif sp['direction'] == 'out':
                 me.client.settings.network.peer.obfuscate = sp['obf']
                 try:
                     conn = await me.call(net.create_peer_connection(bob.name, sp['typ']))
